@@ -1,5 +1,5 @@
 (* proofs/C03.v -- weights act as a pointwise multiplier before the NaN-skipping mean. *)
-From V Require Import lib.Tree proofs.C01.
+From V Require Import lib.Tree proofs.C01 gen.Gen_weights.
 Open Scope string_scope.
 
 (* ---- pointwise factorisation: preserve_dims='all' with weights w = w * unweighted pointwise result ---- *)
@@ -139,3 +139,24 @@ Proof. intros Hc Hs Hw. unfold mean_score, apply_weights. cbn [lget lreduce lzip
    apply xmul_scale_assoc; auto.
  - intros v Hv. apply in_map_iff in Hv. destruct Hv as [x [<- _]].
    specialize (Hs x). specialize (Hw x). destruct (lget s x), (lget w x); cbn in *; try discriminate; auto. Qed.
+
+(* ---- route A: the helper every score calls, regenerated from functions.py (site C03.aw, gen/Gen_weights.v) ---- *)
+(* the code of apply_weights, read off the source: no weights = the values themselves, weights = one multiplication *)
+Theorem gen_apply_weights_none v : gen_apply_weights v None = v.
+Proof. reflexivity. Qed.
+Theorem gen_apply_weights_some v w : gen_apply_weights v (Some w) = xmul v w.
+Proof. reflexivity. Qed.
+(* the labelled-array functional used by every theorem above is, cell by cell, the regenerated code *)
+Theorem apply_weights_is_code w s e :
+  lget (apply_weights w s) e = gen_apply_weights (lget s e) (option_map (fun a => lget a e) w).
+Proof. destruct w as [w|]; reflexivity. Qed.
+(* hence the pointwise factorisation, stated against the regenerated code rather than the hand model *)
+Theorem weights_pointwise_code s w e :
+  lget (mean_score s (Some w) []) e =x= gen_apply_weights (lget (mean_score s None []) e) (Some (lget w e)).
+Proof. rewrite gen_apply_weights_some. apply weights_pointwise. Qed.
+(* the code never looks at anything but the two values of the cell: a NaN score or NaN weight gives NaN, and for finite
+   values the result is the rational product *)
+Theorem gen_apply_weights_nan v w : v = XNaN \/ w = XNaN -> gen_apply_weights v (Some w) = XNaN.
+Proof. intros [H|H]; subst; [reflexivity | destruct v; reflexivity]. Qed.
+Theorem gen_apply_weights_fin a b : gen_apply_weights (XFin a) (Some (XFin b)) = XFin (a * b).
+Proof. reflexivity. Qed.
